@@ -493,8 +493,55 @@ func c11Recover(r *Result, rng *rand.Rand, dir string, seed int64, k, total int)
 			}
 		}
 	}
-	for _, m := range recovered {
-		m.store.Close()
+	// (5) a second restart: what the recovered nodes wrote in their second life must be there too
+	if len(recovered) >= 2 {
+		type life struct {
+			known     map[uint32]int
+			delivered int
+			seq       int
+		}
+		second := map[int]life{}
+		for _, m := range recovered {
+			second[m.idx] = life{known: m.core.KnownEvents(), delivered: len(m.app.delivered), seq: m.core.Seq()}
+			m.store.Close()
+		}
+		for _, m := range recovered {
+			path := filepath.Join(dir, fmt.Sprintf("m%d", m.idx))
+			st, err := hg.NewBadgerStore(200, path, false, nil)
+			if err != nil {
+				r.Violate("impl-violation", what("node %d: the database cannot be reopened a second time: %v", m.idx, err), "reopen-twice", replay)
+				continue
+			}
+			m.store = st
+			gen := peers.NewPeerSet(append([]*peers.Peer{}, cl.genesis...))
+			m.app = newApp()
+			m.core = newVerifCoreWith(m, cl.genesis, gen, m.app.commitCallback)
+			if cls, det := guarded(func() error { return m.core.Bootstrap() }); cls != "ok" {
+				r.Violate("impl-violation", what("node %d: second bootstrap %s: %s", m.idx, cls, det), "bootstrap-twice-"+cls, replay)
+				st.Close()
+				continue
+			}
+			m.core.SetHeadAndSeq()
+			r.Inc("second_restarts", 1)
+			before := second[m.idx]
+			for id, last := range before.known {
+				if got := m.core.KnownEvents()[id]; got < last {
+					r.Violate("impl-violation", what("node %d knew events of creator %d up to index %d before its second restart, only up to %d after it", m.idx, id, last, got), "second-restart-forgets", replay)
+					break
+				}
+			}
+			if len(m.app.delivered) < before.delivered {
+				r.Violate("impl-violation", what("node %d had delivered %d blocks before its second restart, re-delivers %d", m.idx, before.delivered, len(m.app.delivered)), "second-restart-blocks", replay)
+			}
+			if m.core.Seq() < before.seq {
+				r.Violate("impl-violation", what("node %d: seq %d after the second restart, %d before", m.idx, m.core.Seq(), before.seq), "second-restart-seq", replay)
+			}
+			st.Close()
+		}
+	} else {
+		for _, m := range recovered {
+			m.store.Close()
+		}
 	}
 	r.Count(fmt.Sprintf("seed %d kill %d", seed, k), k > 0 && k < total && deliveredBefore > 0)
 	r.Inc("recoveries", 1)
